@@ -15,19 +15,20 @@ namespace Pandora.Model.C13
 
 /-! ### `str.ParseStringFunc` (lib/str/string.go) -/
 
-/-- `name(arg, arg)` → name and arguments (`none` = no parentheses at all: Go returns a nil slice) -/
-def parseStringFunc (shoot : Bytes) : Res (Bytes × Option (List Bytes)) := do
+/-- `name(arg, arg)` → name and arguments (`none` = no parentheses at all: Go returns a nil slice).
+The three slice expressions `shoot[:openIdx]`, `shoot[openIdx+1:]`, `arg[:closeIdx]` are checked. -/
+def parseStringFunc (shoot : Bytes) : Res (Bytes × Option (List Bytes)) :=
   let openIdx := indexByte shoot 40
   if openIdx = -1 then
     if indexByte shoot 41 ≠ -1 then .err "bracket" else .ok (shoot, none)
   else
-    let name := trimSpace (← sliceC shoot 0 openIdx)
-    let arg := trimSpace (← sliceC shoot (openIdx + 1) shoot.length)
-    let closeIdx := indexByte arg 41
-    if closeIdx ≠ (arg.length : Int) - 1 ∨ closeIdx = -1 then .err "bracket"
-    else
-      let arg := trimSpace (← sliceC arg 0 closeIdx)
-      .ok (name, some ((split arg 44).map trimSpace))
+    (sliceC shoot 0 openIdx).bind fun nameRaw =>
+    (sliceC shoot (openIdx + 1) shoot.length).bind fun argRaw =>
+      let arg := trimSpace argRaw
+      let closeIdx := indexByte arg 41
+      if closeIdx ≠ (arg.length : Int) - 1 ∨ closeIdx = -1 then .err "bracket"
+      else (sliceC arg 0 closeIdx).bind fun inner =>
+        .ok (trimSpace nameRaw, some ((split (trimSpace inner) 44).map trimSpace))
 
 /-! ### `config.ParseShootName` (components/providers/scenario/config/decode.go) -/
 
@@ -160,10 +161,10 @@ def extractFromSlice (fixed : Bool) (cur : Val) (indexStr curSeg : Bytes) (st : 
   | .arr true elems =>
     -- Go evaluates iter.Next only on the `next` path of calcIndex (after the emptiness check of the repaired code)
     let reachesNext : Bool := usesNext indexStr && !(fixed && elems.length == 0)
-    let (nx, st') := if reachesNext then iterNext st curSeg else (0, st)
-    match calcIndex fixed indexStr elems.length nx rnd with
-    | .ok i => (indexC elems i, st')
-    | r => (r.castFail, st')
+    let it : Int × IterState := if reachesNext then iterNext st curSeg else (0, st)
+    match calcIndex fixed indexStr elems.length it.1 rnd with
+    | .ok i => (indexC elems i, it.2)
+    | r => (r.castFail, it.2)
   | _ => (.err "type", st)
 
 structure MpState where
@@ -253,67 +254,68 @@ def findTags : Nat → Bytes → List Tag
       | _ => findTags fuel rest
     else findTags fuel rest
 
-/-- `propertyTokenResolver`: `file#property`; `fileOf` gives the `key=value` lines of a readable file -/
-def propertyResolve (fixed : Bool) (fileOf : Bytes → Option (List Bytes)) (inp : Bytes) : Res Bytes := do
-  -- strings.SplitN(in, "#", 2)
+/-- the scan of the property file: first `key=value` line whose key is `property` -/
+def propScan (property : Bytes) : List Bytes → Res Bytes
+  | [] => .err "noprop"
+  | l :: ls =>
+    match cut l 61 with
+    | some (k, v) => if k = property then .ok v else propScan property ls
+    | none => propScan property ls
+
+/-- `propertyTokenResolver`: `file#property`; `fileOf` gives the lines of a readable file.
+`split := strings.SplitN(in, "#", 2); filename, property := split[0], split[1]` -/
+def propertyResolve (fixed : Bool) (fileOf : Bytes → Option (List Bytes)) (inp : Bytes) : Res Bytes :=
   let parts : List Bytes := match cut inp 35 with
     | some (a, b) => [a, b]
     | none => [inp]
-  if fixed ∧ parts.length < 2 then .err "format" else
-  let filename ← indexC parts 0
-  let property ← indexC parts 1
-  match fileOf filename with
-  | none => .err "open"
-  | some lines =>
-    let rec scan : List Bytes → Res Bytes
-      | [] => .err "noprop"
-      | l :: ls =>
-        match cut l 61 with
-        | some (k, v) => if k = property then .ok v else scan ls
-        | none => scan ls
-    scan lines
+  if fixed && decide (parts.length < 2) then .err "format"
+  else
+    (indexC parts 0).bind fun filename =>
+    (indexC parts 1).bind fun property =>
+      match fileOf filename with
+      | none => .err "open"
+      | some lines => propScan property lines
 
 def kwEnv : Bytes := [101, 110, 118]
 def kwProperty : Bytes := [112, 114, 111, 112, 101, 114, 116, 121]
 
-/-- `ResolveCustomTags` for a string target: `none` = ErrNoTagsFound (value left as it is) -/
+/-- the token loop of `ResolveCustomTags` -/
+def resolveGo (fixed : Bool) (env : Bytes → Option Bytes) (fileOf : Bytes → Option (List Bytes)) : List Tag → Bytes → Res Bytes
+  | [], res => .ok res
+  | t :: ts, res =>
+    let ty := asciiLower t.tagType
+    if ty.isEmpty || ty = kwEnv then
+      match env t.varname with
+      | none => .err "env"
+      | some v => resolveGo fixed env fileOf ts (replaceAll res t.whole v)
+    else if ty = kwProperty then
+      match propertyResolve fixed fileOf t.varname with
+      | .ok v => resolveGo fixed env fileOf ts (replaceAll res t.whole v)
+      | r => r
+    else resolveGo fixed env fileOf ts res
+
+/-- `ResolveCustomTags` for a string target (no tags: the value is left as it is) -/
 def resolveTags (fixed : Bool) (env : Bytes → Option Bytes) (fileOf : Bytes → Option (List Bytes)) (s : Bytes) : Res Bytes :=
-  let tags := findTags (s.length + 1) s
-  if tags.isEmpty then .ok s else
-  let rec go : List Tag → Bytes → Res Bytes
-    | [], res => .ok res
-    | t :: ts, res =>
-      let ty := asciiLower t.tagType
-      if ty.isEmpty ∨ ty = kwEnv then
-        match env t.varname with
-        | none => .err "env"
-        | some v => go ts (replaceAll res t.whole v)
-      else if ty = kwProperty then
-        match propertyResolve fixed fileOf t.varname with
-        | .ok v => go ts (replaceAll res t.whole v)
-        | .err c => .err c
-        | .panic w => .panic w
-        | .fatal w => .fatal w
-      else go ts res
-  go tags s
+  resolveGo fixed env fileOf (findTags (s.length + 1) s) s
 
 /-! ### `templater.randInt` (components/providers/scenario/templater/func.go) -/
 
-/-- `randInt(f, t)` on int64 arguments; `rnd` = raw output of the generator -/
+/-- the bounds `randInt` ends up with: reversed bounds are swapped, (0,0) means [0,10), equal bounds are meant
+to give a window of 10 (the unrepaired code moves the LOWER bound up instead: `f = t + 10`) -/
+def randIntBounds (fixed : Bool) (f t : Int) : Int × Int :=
+  let p : Int × Int := if t < f then (t, f) else (f, t)
+  let t := if p.1 = 0 ∧ p.2 = 0 then 10 else p.2
+  if fixed then (p.1, if t = p.1 then wrap64 (p.1 + 10) else t)
+  else (if t = p.1 then wrap64 (t + 10) else p.1, t)
+
+/-- `randInt(f, t)` on int64 arguments; `rnd` = raw output of the generator.
+`n := rand.Int63n(t - f)` panics unless `t - f > 0` (in wrap-around int64 arithmetic). -/
 def randInt (fixed : Bool) (f t : Int) (rnd : Nat) : Res Int :=
-  let (f, t) := if t < f then (t, f) else (f, t)
-  let t := if f = 0 ∧ t = 0 then 10 else t
-  if fixed then
-    let t := if t = f then wrap64 (f + 10) else t
-    let d := wrap64 (t - f)
-    if d ≤ 0 then .err "range"
-    else match intnC d rnd with
-      | .ok n => .ok (wrap64 (n + f))
-      | r => r
-  else
-    let f := if t = f then wrap64 (t + 10) else f
-    match intnC (wrap64 (t - f)) rnd with
-    | .ok n => .ok (wrap64 (n + f))
+  let b := randIntBounds fixed f t
+  let d := wrap64 (b.2 - b.1)
+  if fixed && decide (d ≤ 0) then .err "range"
+  else match intnC d rnd with
+    | .ok n => .ok (wrap64 (n + b.1))
     | r => r
 
 /-! ### `cli.readConfig`: `pools := v.Get("pools").([]any)` … `pool.(map[string]any)` -/
